@@ -52,6 +52,10 @@ enum Perturb {
   DanglingRef,
   /// a rewriter's rule refers to an undefined utility
   DanglingRefInRewriter,
+  /// a transformation cycle that goes through a `rewrite`
+  TransformCycleRewrite,
+  /// the rule's kinds would come from a local utility without kinds; a GLOBAL utility of the same id has kinds
+  NoKindShadowedGlobal,
   UtilSelfHas, // different-node relation: either outcome, must not crash
 }
 
@@ -90,6 +94,8 @@ const ALL: &[Perturb] = &[
   Perturb::DanglingRef,
   Perturb::DanglingRef,
   Perturb::DanglingRefInRewriter,
+  Perturb::TransformCycleRewrite,
+  Perturb::NoKindShadowedGlobal,
 ];
 
 /// a valid document; `object_fix` selects the fix form
@@ -244,6 +250,27 @@ fn perturb(doc: &mut Value, p: Perturb, b: &Base) -> bool {
       first["rule"]["not"] = json!({"matches": "ZZ"});
       true
     }
+    Perturb::TransformCycleRewrite => {
+      let Some(t) = doc.get_mut("transform").and_then(|t| t.as_object_mut()) else { return false };
+      if !(t.contains_key("T0") && t.contains_key("RW")) {
+        return false;
+      }
+      let body = t.get_mut("T0").unwrap().as_object_mut().unwrap().iter_mut().next().unwrap().1;
+      body["source"] = json!("$RW");
+      t.get_mut("RW").unwrap()["rewrite"]["source"] = json!("$T0");
+      true
+    }
+    Perturb::NoKindShadowedGlobal => {
+      let o = doc.as_object_mut().unwrap();
+      o.insert("rule".into(), json!({"matches": "S"}));
+      o.insert("utils".into(), json!({"S": {"regex": "foo"}}));
+      o.remove("constraints");
+      o.remove("transform");
+      o.remove("rewriters");
+      o.insert("_global".into(), json!([{"id": "S", "language": b.lang, "rule": {"kind": b.kind_a}}]));
+      set_fix_template(doc, "bar()".to_string());
+      true
+    }
     Perturb::RemoveRewriter => {
       if doc.get("rewriters").is_none() {
         return false;
@@ -304,11 +331,21 @@ fn strip_private(doc: &Value) -> Value {
   let mut m = doc.as_object().unwrap().clone();
   m.remove("_va");
   m.remove("_vb");
+  m.remove("_global");
   Value::Object(m)
 }
 
-fn load(yaml: &str) -> Result<RuleConfig<SupportLang>, String> {
-  let g = GlobalRules::default();
+fn load(yaml: &str, globals: Option<&Value>) -> Result<RuleConfig<SupportLang>, String> {
+  let g = match globals.and_then(|g| g.as_array()) {
+    Some(list) => {
+      let mut sers = vec![];
+      for d in list {
+        sers.push(ast_grep_config::from_str(&d.to_string()).map_err(|e| format!("global: {e}"))?);
+      }
+      ast_grep_config::DeserializeEnv::parse_global_utils(sers).map_err(|e| format!("global: {e}"))?
+    }
+    None => GlobalRules::default(),
+  };
   let mut v = from_yaml_string::<SupportLang>(yaml, &g).map_err(|e| {
     let mut msg = format!("{e}");
     let mut src = std::error::Error::source(&e);
@@ -327,7 +364,7 @@ fn load(yaml: &str) -> Result<RuleConfig<SupportLang>, String> {
 pub fn check_doc(lang_name: &str, source: &str, doc: &Value, p_name: &str, must_reject: Option<bool>, run_it: bool, rep: &mut Report) {
   let yaml = serde_json::to_string(&strip_private(doc)).unwrap();
   let replay = json!({"monitor":"c12","lang":lang_name,"source":source,"doc":doc,"perturbation":p_name,"must_reject":must_reject,"run":run_it});
-  let loaded = guarded(|| load(&yaml));
+  let loaded = guarded(|| load(&yaml, doc.get("_global")));
   let cfg = match loaded {
     Err(p) => {
       rep.violation(&format!("C12/panic-load/{}", p.site()), &format!("[{p_name}] loading panicked at {}: {}", p.location, p.message), replay);
